@@ -1,6 +1,7 @@
 import Driver.StrPath
 import Driver.TileD
 import Driver.StreamD
+import Driver.BmpD
 /-!
 # op2model — line-protocol driver for the executable model
 
@@ -13,6 +14,7 @@ def handlers : List (String → List String → Option String) :=
   handleStrPath ::
   handleTile ::
   handleStream ::
+  handleBmp ::
   []
 
 def dispatch (line : String) : String :=
